@@ -114,8 +114,9 @@ class Driver:
     def _rows(self, X):
         return [[enc_num(v, self.mode) for v in row] for row in X]
 
-    def eval(self, cid: str, theta: dict, X) -> list:
-        r = self.call({"cmd": "eval", "id": cid, "theta": self._theta(theta), "X": self._rows(X)})
+    def eval(self, cid: str, theta: dict, X, absolute: bool = False) -> list:
+        r = self.call({"cmd": "eval", "id": cid, "theta": self._theta(theta), "X": self._rows(X),
+                       "abs": absolute})
         return dec_nested(r["ok"], self.mode)
 
     def op_eval(self, cid: str, theta: dict, X, op: str, **kw) -> list:
